@@ -1924,7 +1924,11 @@ void Router::markPolylineConnectorsNeedingReroutingForDeletedObstacle(
             }
             else
             {
-                x = ((b*c) + (a*d)) / (b + d);
+                // The point on the edge's line minimising the length of
+                // start--x--end.  Use the distances of the two end points
+                // from the line, so that this is also right when they lie
+                // on opposite sides of it.
+                x = ((fabs(b)*c) + (a*fabs(d))) / (fabs(b) + fabs(d));
             }
 
             //db_printf("%.1f, %.1f, %.1f, %.1f\n", a, b, c, d);
